@@ -294,6 +294,16 @@ def case_argtype_after(acc, scheme, argname):
             got.append(("exc", type(e).__name__))
         if first.explicit_port != good:
             got.append(("first call wrong", first.explicit_port))
+    # the same through URL.build (any of the two documented exception classes)
+    for kw in ({"host": "h.com"}, {"host": "h.com", "user": "u"}):
+        impl.URL.build(scheme=scheme or "x", port=good, **kw)
+        try:
+            r = impl.URL.build(scheme=scheme or "x", port=bad, **kw)
+            got.append(("build accepted", str(r)))
+        except (TypeError, ValueError):
+            got.append(("TypeError",))
+        except Exception as e:  # noqa: BLE001
+            got.append(("exc", type(e).__name__))
     if any(g != ("TypeError",) for g in got):
         acc.viol("argtype_after", (scheme, argname), observed=got, expected="TypeError every time",
                  msg="with_port(%s) after with_port(%r) under scheme %r: %r" % (argname, good, scheme, got))
